@@ -360,6 +360,26 @@ class SymInt:
     def __mod__(self, o):
         return SymInt(self.z % _z(o))
 
+    def __rmod__(self, o):
+        return SymInt(_z(o) % self.z)
+
+    def __divmod__(self, o):
+        return (self // o, self % o)
+
+    def __rdivmod__(self, o):
+        return (SymInt(_z(o) / self.z), SymInt(_z(o) % self.z))
+
+    def __pos__(self):
+        return self
+
+    def __abs__(self):
+        return SymInt(z3.If(self.z >= 0, self.z, -self.z))
+
+    def __truediv__(self, o):
+        raise Concretisation("true division of SymInt (float)")
+
+    __rtruediv__ = __truediv__
+
     def __neg__(self):
         return SymInt(-self.z)
 
